@@ -535,7 +535,7 @@ func runC15(c *Ctx) {
 		depth = 3
 	}
 	c.Exhaustive = true
-	c.Rule = fmt.Sprintf("all management-call histories of depth <= %d (effective, no-op and failing calls; failing = the first adapter call of the last step is armed to fail in a second pass) x {Watcher, WatcherEx, UpdatableWatcher, WatcherEx+Updatable} x auto-notify on/off (and auto-save off for two watcher kinds: announcements do not depend on it; and for two kinds from a store that already holds a p and a g rule), two real enforcers sharing the recording in-memory adapter over a synchronous bus: the notification log (kind and arguments) is compared with the Lean model after every call, and on the implementation: exactly one notification per effective call, none for false/error results and Self* calls, and the peer, reloading on every notification, reaches the originator's decisions; every rule-changing SyncedEnforcer method (Self* replays included) vs the Enforcer method it wraps on twin enforcers: same notifications, results and state; non-trivial = a history with an effective and a no-op call; distinct = (watcher kind, flags, history)", depth)
+	c.Rule = fmt.Sprintf("all management-call histories of depth <= %d (effective, no-op and failing calls; failing = the first adapter call of the last step is armed to fail in a second pass) x {Watcher, WatcherEx, UpdatableWatcher, WatcherEx+Updatable} x auto-notify on/off (and auto-save off for two watcher kinds: announcements do not depend on it; and for two kinds from a store that already holds a p and a g rule), two real enforcers sharing the recording in-memory adapter over a synchronous bus: the notification log (kind and arguments) is compared with the Lean model after every call, and on the implementation: exactly one notification per effective call, none for false/error results and Self* calls, and the peer, reloading on every notification, reaches the originator's decisions; a watcher whose notifications fail (twin enforcers: same notifications, memory and store, result (bool, error)); every rule-changing SyncedEnforcer method (Self* replays included) vs the Enforcer method it wraps on twin enforcers: same notifications, results and state; non-trivial = a history with an effective and a no-op call; distinct = (watcher kind, flags, history)", depth)
 	type c15Variant struct {
 		wk               string
 		notify, autosave bool
@@ -675,6 +675,7 @@ func runC15(c *Ctx) {
 			enumerate(c, cfg)
 		}
 	}
+	c15FailingWatcher(c)
 	// the synchronised wrapper announces exactly what the plain enforcer announces: every method that changes
 	// rules (Self* replays included) on twin enforcers with a WatcherEx+UpdatableWatcher each
 	rounds := 2
